@@ -611,9 +611,9 @@ def generate(ctx):
         yield "pair", {"a": a, "b": b, "label": label, "envs": gen_envs(rng)}
         yield "tok", {"node": a}
         yield "tok", {"node": b}
-    for _ in range(ctx.n(300, 6000)):
+    for _ in range(ctx.n(250, 6000)):
         yield "tok", {"node": gen_node(rng)}
-    for _ in range(ctx.n(500, 9000)):
+    for _ in range(ctx.n(400, 9000)):
         a = gen_node(rng)
         r = rng.random()
         if r < 0.75:
@@ -625,11 +625,11 @@ def generate(ctx):
         yield "pair", {"a": a, "b": b, "label": label, "envs": gen_envs(rng)}
     for h in EXPLICIT_HIST:
         yield "hist", dict(h, envs=gen_envs(rng, 2))
-    for _ in range(ctx.n(250, 3000)):
+    for _ in range(ctx.n(200, 3000)):
         yield "hist", gen_hist(rng)
     _NO_COLLIDE[0] = True
     try:
-        evals = [{"node": gen_node(rng), "env": gen_envs(rng, 1)[0]} for _ in range(ctx.n(150, 3000))]
+        evals = [{"node": gen_node(rng), "env": gen_envs(rng, 1)[0]} for _ in range(ctx.n(100, 3000))]
     finally:
         _NO_COLLIDE[0] = False
     for e in evals:
